@@ -245,18 +245,22 @@ theorem refresh_trigger {s : St} {c : Cfg} (call : Call) (err : ErrKind) {r : Re
     · simp [h1, h2]
   · simp [h1]
 
-/-- the window doubles with every refresh since the last response (while it fits in 32 bits) -/
-theorem window_exponential (c : Cfg) (k : Nat) (h : 2 ^ k * c.ums < 2 ^ 32) :
-    windowNs c k = ((2 ^ k * c.ums : Nat) : Int) * 1000000 := by
-  by_cases hu : c.ums = 0
-  · simp [windowNs, hu]
-  · have h1 : 2 ^ k < 2 ^ 32 := by
-      have : 1 ≤ c.ums := by omega
-      calc 2 ^ k = 2 ^ k * 1 := by omega
-        _ ≤ 2 ^ k * c.ums := Nat.mul_le_mul_left _ this
-        _ < 2 ^ 32 := h
-    simp only [windowNs]
-    rw [Nat.mod_eq_of_lt h1, Nat.mod_eq_of_lt h]
+/-- the window doubles with every refresh since the last response; it never wraps around: beyond the
+    range of time.Duration it saturates -/
+theorem window_exponential (c : Cfg) (k : Nat) (hk : k < 63) (h : c.ums ≤ ((2^63 - 1) / 1000000) / 2 ^ k) :
+    windowNs c k = ((c.ums * 2 ^ k : Nat) : Int) * 1000000 := by
+  unfold windowNs
+  have h1 : ¬ (k ≥ 63) := by omega
+  have h2 : ¬ (c.ums > (2 ^ 63 - 1) / 1000000 / 2 ^ k) := by omega
+  simp [h1, h2]
+
+theorem window_monotone_or_saturated (c : Cfg) (k : Nat) :
+    windowNs c k = 2^63 - 1 ∨ windowNs c k = ((c.ums * 2 ^ k : Nat) : Int) * 1000000 := by
+  unfold windowNs
+  simp only
+  split
+  · left; rfl
+  · right; rfl
 
 /-- `refresh` when a refresh of the slot is already in progress: no second replacement -/
 theorem refresh_once {s : St} {slot : Slot} {r : RefSt} (hg : getRef s slot = some r)
